@@ -136,6 +136,15 @@ CLAIMED["C10"] = {
     "technique": "frame conditions on traces of the real Map specialisations: sentinel cells + same-execution expression-DAG identity",
 }
 
+CLAIMED["C08"] = {
+    "text": "Proof over the reals of a representation invariant | ||rot||^2-1 | <= eps preserved by every element-returning primitive (exp, compose, inverse, "
+            "between, rplus/+=, *=, cast, Random, Identity) from inputs that satisfy only the invariant, and that no assertion can fire (assertions compiled in): "
+            "per path, Groebner elimination reduces the result's squared norm to a polynomial in the inputs' squared norms, z3 proves the bound and the "
+            "infeasibility of throwing paths. History-length independent by induction over operations.",
+    "note": _REAL + "Assumed: per-operation rounding perturbation of the squared norm below eps/4. Interpolation/averaging/Bundles return elements only through these primitives (C11 for bundles).",
+    "technique": "representation invariant as pre/postcondition of each primitive; per-path VCs by symbolic-scalar execution; Groebner elimination + z3 (QF_NRA)",
+}
+
 NOT_APPLICABLE = {
     "C14": "quantifies over thread schedules; contract verification of one sequential call cannot express or decide data-race freedom (no thread model in any installed deductive back end for this C++ code) - see DESIGN.md section 5",
     "C19": "the oracle is the compiler's accept/reject verdict over a matrix of client programs, not a pre/postcondition of any function - see DESIGN.md section 5",
